@@ -131,6 +131,14 @@ func (w SimHijackWriter) Hijack() (net.Conn, *bufio.ReadWriter, error) {
 	return c, bufio.NewReadWriter(bufio.NewReader(c), bufio.NewWriter(c)), nil
 }
 
+// SimFullWriter implements both optional interfaces, like the writer of net/http's server.
+type SimFullWriter struct{ *SimWriter }
+
+func (w SimFullWriter) Flush() { SimFlushWriter{w.SimWriter}.Flush() }
+func (w SimFullWriter) Hijack() (net.Conn, *bufio.ReadWriter, error) {
+	return SimHijackWriter{w.SimWriter}.Hijack()
+}
+
 type simConn struct{ w *SimWriter }
 
 type simAddr struct{}
